@@ -457,10 +457,14 @@ func runCorpusTL1(c *core.Ctx, prop string, cp Corpus, k, kmut, kjson, kre, kmut
 			c.Sample(map[string]any{"corpus": cp.Name, "type": p.Tn, "bytes": hexs(p.B), "boxed": p.Boxed, "spec_accepts": p.Dec.OK, "impl_err": s.Err})
 		}
 	}
+	longStr := "{}"
+	if prop == "C02" {
+		longStr = "{253}" // the longest string of the one-byte length form: its 4-byte re-spelling must be refused
+	}
 	res, err := c.TLC(core.TLCOpts{Module: "MC_Codec", Cfg: "MC_Codec.cfg", Workers: 8, Timeout: 20 * time.Minute,
 		Files:  map[string][]byte{"SchemaData.tla": b.SchemaModuleX(tops, extraVals)},
 		OnEmit: onEmit,
-		Consts: map[string]string{"SANITY": tlaBool(cp.Sanity), "MAXLEN": "2", "LONGSTR": "{}", "K": strconv.Itoa(k), "KMUT": strconv.Itoa(kmut), "KJSON": strconv.Itoa(kjson), "KRE": strconv.Itoa(kre), "KMUT2": strconv.Itoa(kmut2), "KFN": strconv.Itoa(kfn), "KBAD": strconv.Itoa(kbad), "EDGES": tlaBool(prop == "C09")}})
+		Consts: map[string]string{"SANITY": tlaBool(cp.Sanity), "MAXLEN": "2", "LONGSTR": longStr, "K": strconv.Itoa(k), "KMUT": strconv.Itoa(kmut), "KJSON": strconv.Itoa(kjson), "KRE": strconv.Itoa(kre), "KMUT2": strconv.Itoa(kmut2), "KFN": strconv.Itoa(kfn), "KBAD": strconv.Itoa(kbad), "EDGES": tlaBool(prop == "C09")}})
 	if err != nil {
 		return err
 	}
